@@ -43,6 +43,28 @@ def classify_hfail(line):
         return "mixed-version-files"
     if "after-cross-version-copy" in causes and (kind in VERSION_FAILS or kind == "reload-content-differs"):
         return "copy-keeps-source-type"
+    # an element hangs below a parent that lists its name with another DATATYPE (moved / copied there, the stored type is kept):
+    # the loader reads everything below it with the other type.  Order failures are not excused (the order oracle reads the stored type).
+    if "stored-type-mismatch" in causes and (kind.startswith("warning:") or kind == "reload-content-differs"):
+        return "move-keeps-source-type"
+    return None
+
+
+def classify_xattach(line):
+    """XATTACH line of `avh range xattach` -> key of the known finding that explains it, or None"""
+    f = dict(x.split("=", 1) for x in line.split()[1:] if "=" in x and not x.startswith(("reload", "cause")))
+    sig = line.replace(" FIRST", "").split()[-1]
+    parts = sig.split(";")
+    causes = [p for p in parts if p.startswith("cause:")]
+    probs = [p for p in parts if not p.startswith("cause:")]
+    if "PANIC" in probs or "mismatch-reading-differs" in probs or not probs:
+        return None
+    if not all(p.startswith("reload-warning:") or p.startswith("reload-content-differs") for p in probs):
+        return None
+    if probs == ["reload-warning:LOAD-ERROR:OverlappingDataError"] and "cause:duplicate-path" in causes:
+        return "duplicate-path-unloadable"
+    if f.get("dt") == "differs" and f.get("stored") != f.get("c2"):
+        return "move-keeps-source-type"
     return None
 
 
@@ -273,6 +295,36 @@ def run_hist_script(avh, text, name):
     return rc, out
 
 
+def xattach(ctx, avh, tier, prop_fail, known_hits):
+    """move / copy below a parent that lists the name with ANOTHER element type, inside one version"""
+    t0 = time.time()
+    res = par([[avh, "range", "xattach", DUMP, tier, str(i), str(NSHARDS)] for i in range(NSHARDS)], timeout=3000)
+    lines, stats = [], []
+    for rc, out, _ in res:
+        lines += [l for l in out.split("\n") if l.startswith("XATTACH ")]
+        stats += [l for l in out.split("\n") if l.startswith("STAT xattach")]
+    tot = {}
+    for l in stats:
+        for k, v in re.findall(r"(\w+)=(\d+)", l):
+            tot[k] = tot.get(k, 0) + int(v) if k != "versions" else int(v)
+    ctx.log("attach sweep: %s in %.0fs" % (tot, time.time() - t0))
+    ctx.coverage["attach_sweep"] = tot
+    ctx.coverage["evaluations"] += tot.get("combinations", 0)
+    other = []
+    for l in lines:
+        key = classify_xattach(l)
+        if key:
+            known_hits.setdefault(key, []).append(l)
+        else:
+            other.append(l)
+    done = all(rc == 0 for rc, _, _ in res) and len(stats) == NSHARDS and tot.get("attached", 0) > 0
+    ctx.oblige("oracle:attach sweep(move within a model, move from another model and copy, inside one version, below every parent type that lists the "
+               "name with another element type: the target file re-loads with only RequiredAttributeMissing and the same content; only the recorded finding "
+               "move-keeps-source-type = the attached element kept a type of another DATATYPE)", done and not other, "\n".join(other[:3]) or "sweep incomplete")
+    for l in other[:5]:
+        prop_fail.append({"kind": "xattach", "line": l, "how_to_replay": "harness/target/debug/avh range xattach work/c07/dump thorough 0 1 | grep '%s'" % " ".join(l.split()[1:8])})
+
+
 def known_findings(ctx, avh, prop_fail, known_hits):
     xc = None
     for e in lib.load_known("C07"):
@@ -356,6 +408,7 @@ def run(tier, seed):
     if avh and have_dump:
         sweep(ctx, avh, avm, tier, prop_fail)
         histories(ctx, avh, avm_tree, tier, seed, prop_fail, known_hits)
+        xattach(ctx, avh, tier, prop_fail, known_hits)
         known_findings(ctx, avh, prop_fail, known_hits)
 
     if ctx.broken:
@@ -438,6 +491,14 @@ def replay(path):
             if not res.get(exp["step"], "?").startswith(exp["result"]):
                 bad.append("step %d gives %s, expected %s" % (exp["step"], res.get(exp["step"]), exp["result"]))
             bad += [l for l in out.split("\n") if l.startswith("HFAIL ")]
+        print("REPLAY %s" % ("FAILS (property violated on this input)" if bad else "passes / only recorded findings"))
+        return 1 if bad else 0
+    if r.get("kind") == "xattach":
+        want = " ".join(r["line"].split()[1:8])
+        rc, out, _ = lib.run([avh, "range", "xattach", DUMP, "thorough", "0", "1"], cwd=CW, timeout=3000)
+        hit = [l for l in out.split("\n") if l.startswith("XATTACH ") and want in l]
+        print("\n".join(hit[:5]))
+        bad = [l for l in hit if classify_xattach(l) is None]
         print("REPLAY %s" % ("FAILS (property violated on this input)" if bad else "passes / only recorded findings"))
         return 1 if bad else 0
     if r.get("kind") == "xcopy":
